@@ -1,6 +1,6 @@
 (* Protocol entry point of the extracted model: one command + hex arguments in, one JSON line out. *)
 From Coq Require Import String Ascii List ZArith NArith Bool.
-From SDP Require Import Base PyStr Regex Json Codec LR RealTables Lexer Actions Parse Engine Seq Output Pre Api Entity Table.
+From SDP Require Import Base PyStr Regex Json Codec LR RealTables Lexer Actions Parse Engine Seq Output Pre Api Entity Table Alter.
 Import ListNotations.
 Open Scope string_scope.
 
@@ -69,6 +69,14 @@ Definition dispatch (cmd : string) (args : list string) : string :=
               ("denote", json_of_pyval (Table.denote (String.eqb norm "1") t));
               (* what run() reports for the statement: by C01_columns_exact_in_the_reported_table this is [final_table] *)
               ("reported", json_of_res json_of_pyval (Output.format "sql" false [Table.denote (String.eqb norm "1") t]))]
+      end
+  | "alt_spec", norm :: rest =>
+      match alter_of_args rest with
+      | None => JObj [("unsupported", JStr "bad alter args")]
+      | Some a =>
+        JObj [("wf", JBool (Alter.wf (String.eqb norm "1") a));
+              ("lexemes", JArr (map (fun lx => JArr [JStr (fst lx); JStr (snd lx)]) (Alter.lexemes a)));
+              ("denote", json_of_pyval (Alter.denote (String.eqb norm "1") a))]
       end
   | "seq_spec", norm :: rest =>
       match seq_of_args rest with
